@@ -173,12 +173,12 @@ Theorem field_compile_class gs d :
   all_guarded gs = true ->
   compile gs [field_behaviour d] ROk = if field_panics d then OError (parse_error_code gs) else OModel.
 Proof.
-  intros Hg. apply all_guarded_spec in Hg. unfold compile, field_behaviour.
-  cbn [collect_all collect_file seq_stage parse_file b_read b_antlr_imp b_walk_imp b_foreign b_antlr b_walk].
+  intros Hg. apply all_guarded_spec in Hg. destruct Hg as [Ga Gs Gi Gp Gc Gk _ _ _].
+  unfold compile, field_behaviour, collect_all, collect_file, parse_file, to_obs.
+  cbn [seq_stage b_read b_antlr_imp b_walk_imp b_foreign b_antlr b_walk].
+  rewrite Ga, Gs, Gi, Gp, Gc.
   destruct (field_panics d) eqn:Hp.
-  - apply field_panics_iff in Hp. rewrite Hp. cbn [propagate guard andthen].
-    rewrite ?(G_specs gs Hg). cbn [propagate guard andthen]. rewrite ?(G_perr gs Hg). cbn [andthen to_obs].
-    unfold code_of. rewrite (G_code gs Hg). reflexivity.
+  - apply field_panics_iff in Hp. rewrite Hp. cbn [propagate guard andthen rewrap_import]. unfold code_of. rewrite Gk. reflexivity.
   - destruct (denote_field d) eqn:Hd; [reflexivity|]. apply field_panics_iff in Hd. congruence.
 Qed.
 
